@@ -411,9 +411,15 @@ def _record_iter_vars(func, key, table_param):
     """Names bound to records of table_json[<key>] by loops/comprehensions."""
     names = set()
 
-    def is_records(e):
+    def is_records(e, depth=0):
         if isinstance(e, ast.Call) and call_name(e) == 'enumerate' and e.args:
             e = e.args[0]
+        if isinstance(e, ast.Name) and depth < 3:
+            # a local bound once to the record list
+            ds = [x.value for x in ast.walk(func) if isinstance(
+                x, ast.Assign) and len(x.targets) == 1 and isinstance(
+                x.targets[0], ast.Name) and x.targets[0].id == e.id]
+            return len(ds) == 1 and is_records(ds[0], depth + 1)
         return isinstance(e, ast.Subscript) and \
             dotted(e.value) == table_param and const_str(e.slice) == key
     for n in ast.walk(func):
